@@ -4,8 +4,8 @@
     sniproxy/tls_hello_conn.go (Gen/HelloConsts.v, obligations in
     Sni/HelloGen.v). *)
 From Coq Require Import List NArith Bool.
-From Verif Require Import Lib.Bytes Sni.Wire Sni.Hello Sni.HelloProofs Sni.HelloGen
-  Gen.HelloConsts.
+From Verif Require Import Lib.Bytes Sni.Wire Sni.Hello Sni.HelloProofs Sni.Handover
+  Sni.HandoverProofs Sni.HelloGen Gen.HelloConsts.
 Import ListNotations.
 Local Open Scope N_scope.
 
@@ -66,6 +66,78 @@ Proof.
 Qed.
 Print Assumptions C14_reads_progress.
 
+(** The hand-over from the peek buffer to the connection, first class: for
+    every policy of TLSHelloConn.Read that loses nothing ([HoNever]: always
+    through the bufio.Reader; [HoWhenDrained]: straight to the connection once
+    the buffer is empty), any stream - a hello with any amount of data behind
+    it in the same segments -, any segmentation, and **every sequence of caller
+    buffer sizes** (1, 2, ..., 32768, anything): the Reads after HelloInfo
+    return the stream from its first byte, in order, nothing dropped or
+    repeated; what was returned plus what is still owed is always the stream;
+    an error is the end of the stream after all of it. *)
+Theorem C14_handover_all_read_sizes : forall pol stream sched late ms peeked,
+  handover_transparentb pol = true ->
+  exists b1,
+    sniff gen_hello_buf_size (br_new (mkConn stream sched late))
+      = Ok (sniff_pure gen_hello_buf_size stream, b1) /\
+    remaining b1 = stream /\
+    exists chunks e h2,
+      hc_reads pol gen_hello_buf_size ms (hc_start peeked b1) = Some (chunks, e, h2) /\
+      concat chunks ++ hc_owed h2 = stream /\
+      (e <> None -> concat chunks = stream /\ e = Some REof).
+Proof.
+  exact (fun pol stream sched late ms peeked Hpol =>
+           sniff_then_handover pol gen_hello_buf_size stream sched late ms peeked Hpol gen_cap_ge5).
+Qed.
+
+(** ... and the policy emitted from the current TLSHelloConn.Read is one of them. *)
+Theorem C14_handover_here : forall stream sched late ms,
+  exists b1,
+    sniff gen_hello_buf_size (br_new (mkConn stream sched late))
+      = Ok (sniff_pure gen_hello_buf_size stream, b1) /\
+    remaining b1 = stream /\
+    exists chunks e h2,
+      hc_reads gen_read_handover gen_hello_buf_size ms (hc_start 0 b1) = Some (chunks, e, h2) /\
+      concat chunks ++ hc_owed h2 = stream /\
+      (e <> None -> concat chunks = stream /\ e = Some REof).
+Proof.
+  exact (fun stream sched late ms =>
+           sniff_then_handover gen_read_handover gen_hello_buf_size stream sched late ms 0
+             gen_read_handover_transparent gen_cap_ge5).
+Qed.
+
+(** Every Read with a non-empty caller buffer returns at least one byte while
+    bytes are owed - under either policy, whether it is served from the peek
+    buffer or from the connection. *)
+Theorem C14_handover_progress : forall pol m h got e h',
+  handover_transparentb pol = true ->
+  binv gen_hello_buf_size (hc_br h) -> hc_direct h = false -> 0 < m -> hc_owed h <> [] ->
+  hc_read pol gen_hello_buf_size m h = Some (got, e, h') ->
+  (List.length (hc_owed h') < List.length (hc_owed h))%nat /\ got <> [].
+Proof.
+  exact (fun pol m h got e h' Hpol Hinv =>
+           hc_read_progress pol gen_hello_buf_size m h got e h' Hpol
+             (N.lt_le_trans 0 5 _ eq_refl gen_cap_ge5) Hinv).
+Qed.
+
+(** Why the policy matters: releasing the reader once as many bytes as
+    HelloInfo peeked were returned (seeded change C14-d) loses whatever the
+    peek buffer holds behind the hello, as soon as a caller's Read ends with
+    the last byte of the hello. *)
+Theorem C14_handover_by_count_drops : forall b hello extra,
+  hello <> [] -> extra <> [] -> b_buf b = hello ++ extra ->
+  exists h',
+    hc_read HoAfterCount gen_hello_buf_size (lenN hello) (hc_start (lenN hello) b)
+      = Some (hello, None, h') /\
+    hc_direct h' = true /\
+    hc_owed h' = c_rest (b_conn b) /\
+    hello ++ hc_owed h' <> remaining b.
+Proof.
+  exact (fun b hello extra =>
+           handover_by_count_drops gen_hello_buf_size b hello extra
+             (N.lt_le_trans 0 5 _ eq_refl gen_cap_ge5)).
+Qed.
+
 (** Never a wrong name: what is reported is empty, or it is what the parse
     of the complete first record yields. *)
 Theorem C14_never_wrong_name : forall s name protos,
@@ -105,10 +177,12 @@ Theorem C14_source_tie :
   header_len + max_plaintext <= gen_hello_buf_size /\
   16 <= gen_hello_buf_size /\
   gen_hello_header_len = header_len /\ gen_hello_handshake = rec_handshake /\
+  handover_transparentb gen_read_handover = true /\
   hello_src_frozenb = true.
 Proof.
   exact (conj gen_cap_ok (conj gen_cap_min
-          (conj (proj1 gen_header_consts) (conj (proj2 gen_header_consts) gen_hello_src_frozen)))).
+          (conj (proj1 gen_header_consts) (conj (proj2 gen_header_consts)
+            (conj gen_read_handover_transparent gen_hello_src_frozen))))).
 Qed.
 Print Assumptions C14_source_tie.
 
@@ -147,6 +221,31 @@ Example C14_nonvacuous_run :
       (br_new (mkConn (build_hello ex_hello [] ++ [23; 3; 3]) ([1; 2; 3] ++ rep 1000 20) true))
     = Ok (SInfo ex_name [ex_h2; ex_http11], b).
 Proof. vm_compute. eexists. reflexivity. Qed.
+
+(** The hand-over on a small hello with five bytes behind it in the same
+    segment, read with caller buffers of hello-length, 2, 1, 32768 bytes:
+    both transparent policies return everything; releasing by count returns
+    the hello and then nothing. *)
+Definition ex_small : hello_spec :=
+  mkHello 769 771 (rep 7 32) [] [4865] [0] (Some [ESni [(0, ex_name)]]).
+
+Example C14_nonvacuous_handover :
+  let stream := build_hello ex_small [] ++ [23; 3; 3; 0; 9] in
+  let n := lenN (build_hello ex_small []) in
+  let run := fun pol =>
+    match sniff gen_hello_buf_size (br_new (mkConn stream [] false)) with
+    | Ok (_, b1) =>
+        match hc_reads pol gen_hello_buf_size [n; 2; 1; 32768; 7] (hc_start n b1) with
+        | Some (cs, e, _) => Some (map lenN cs, e)
+        | None => None
+        end
+    | _ => None
+    end in
+  run HoNever = Some ([n; 2; 1; 2; 0], Some REof) /\
+  run HoWhenDrained = Some ([n; 2; 1; 2; 0], Some REof) /\
+  run HoAfterCount = Some ([n; 0], Some REof) /\
+  handover_transparentb gen_read_handover = true.
+Proof. vm_compute. repeat split. Qed.
 
 (** Not TLS, a hello with two host names, a hello cut short. *)
 Example C14_nonvacuous_bad :
